@@ -253,6 +253,11 @@ pub struct World {
     /// test actually asked for is ever listed)
     #[serde(default)]
     pub env_flip: Vec<String>,
+    /// the path is a FIFO / pipe (`mkfifo`, `/dev/stdout`, `/dev/fd/N`) instead of a regular file:
+    /// not seekable, not truncatable, `fsync` says EINVAL, `stat` says S_IFIFO with size 0, what a
+    /// reader consumed is gone for the next `open`
+    #[serde(default)]
+    pub pipe: bool,
     /// history of the *process*: worlds the same thread ran through earlier (a long-lived
     /// exporter/importer). Their own verdicts are not judged here.
     #[serde(default)]
@@ -564,6 +569,10 @@ fn run_world_inner(w: &World) -> Obs {
     let pstr: &str = &pkey;
     let refpath = seams::sim_path("reference.txt");
     seams::disk_remove(pstr);
+    if w.pipe {
+        seams::disk_make_pipe(pstr);
+        bump(&mut obs.counters, "path_is_a_fifo");
+    }
     let seedtag = tag(w.program.as_ref().map(|p| p.src.as_str()).unwrap_or("raw"));
 
     let mut circuit: Option<Circuit> = None;
@@ -1309,7 +1318,7 @@ static NSYNC_OF_LAST_REFERENCE: std::sync::atomic::AtomicU64 = std::sync::atomic
 
 fn reference_export(prog: &ProgSpec, dedup: bool, keys: Keys) -> Option<(Vec<u8>, u64, u64)> {
     // fault-free export to learn the size of the search space (write count, bytes)
-    let w = World { program: Some(prog.clone()), dedup, keys, export_plan: Plan::default(), corruptions: vec![], import_plan: Plan::default(), via_lib: false, s5: None, raw_text: None, prior: vec![], earlier: vec![], file_name: None, stdio_broken: None, outside_replace: None, outside_keeps_mtime: false, env_flip: vec![] };
+    let w = World { program: Some(prog.clone()), dedup, keys, export_plan: Plan::default(), corruptions: vec![], import_plan: Plan::default(), via_lib: false, s5: None, raw_text: None, prior: vec![], earlier: vec![], file_name: None, stdio_broken: None, outside_replace: None, outside_keeps_mtime: false, env_flip: vec![], pipe: false };
     seams::reset_world();
     let w2 = w.clone();
     run_party(keys, move || {
@@ -1353,6 +1362,7 @@ pub fn make_world(plan: &CasePlan, seed: u64, idx: u64) -> (World, &'static str,
         outside_replace: None,
         outside_keeps_mtime: false,
         env_flip: vec![],
+        pipe: false,
     };
     // the file's name and the state of the process's stdout/stderr are dimensions of every family
     if family != "s5" && p.chance(1, 3) {
@@ -1479,6 +1489,11 @@ pub fn make_world(plan: &CasePlan, seed: u64, idx: u64) -> (World, &'static str,
             }
             w.program = chosen;
         }
+    }
+    // the kind of file behind the path is a dimension of every family whose world has no stored
+    // bytes to begin with (old data in a FIFO is read before the new data, by any importer)
+    if family != "sweep" && w.program.is_some() && w.prior.is_empty() && w.corruptions.is_empty() && w.outside_replace.is_none() && w.s5.is_none() && w.raw_text.is_none() && p.chance(1, 6) {
+        w.pipe = true;
     }
     (w, family, p)
 }
@@ -1774,6 +1789,26 @@ fn run_sweep(base: &World, acc: &mut Acc) {
         }
     };
     go(base.clone(), acc);
+    // the path is a FIFO: fault-free, through the library wrappers, under transparent faults
+    for variant in 0..4 {
+        let mut w = base.clone();
+        w.pipe = true;
+        match variant {
+            1 => w.via_lib = w.dedup && prog.consts.is_empty(),
+            2 => {
+                for k in 0..nw {
+                    w.export_plan.write.insert(k, if k % 2 == 0 { Act::Short(1) } else { Act::Eintr });
+                }
+            }
+            3 => {
+                for k in 0..(bytes.len() as u64 + 4) {
+                    w.import_plan.read.insert(k, Act::Short(1));
+                }
+            }
+            _ => {}
+        }
+        go(w, acc);
+    }
     // another process replaces the file between two imports (new / same modification time)
     for keep in [false, true] {
         let mut w = base.clone();
